@@ -309,6 +309,9 @@ def check(ctx: Ctx) -> None:
     ctx.guard("R7.bin", ENC, binary_table, ctx, h)
     ctx.guard("R7.str", ENC, string_table, ctx, h)
     ctx.guard("R7.xml", ENC, xml_lengths, ctx)
+    # a length lookup whose first entry is only partly satisfied (all criteria of an entry must hold), end to end
+    from .c01 import end_to_end_second
+    ctx.guard("R7.e2", ENC, end_to_end_second, ctx, "R7.e2")
 
 
 def mutants(prog):
@@ -342,7 +345,7 @@ SPEC = PropSpec(
     pid="C07",
     title="String and binary fields, including computed lengths, decode as documented",
     check=check,
-    floors={"R7.bin": 7, "R7.str": 40, "R7.xml": 10},
+    floors={"R7.bin": 7, "R7.str": 40, "R7.xml": 10, "R7.e2": 10},
     explanation=("Decision tables by abstract interpretation of BinaryDataEncoding / StringDataEncoding (parse_value, "
                  "_calculate_size, _get_raw_buffer, the linear adjuster, the cursor readers) against the checker's own "
                  "bit-string reference: binary fields for all start offsets 0..7 x nine lengths x six length "
